@@ -54,6 +54,19 @@ def gen_inputs(ctx):
         out.append(("GenerateOrder", {"seed": B(bytes(range(64))), "mnemonic": T(""), "password": T(""), "net": rng.choice(["main", "test"]),
                                       "account": rng.choice([0, 3]), "start": B(st.to_bytes(5, "big")), "end": B(en.to_bytes(5, "big"))},
                     ("generate-long-interval", en - st > 256)))
+    # wallets whose sentence the LIBRARY chose (fresh entropy, every length) or built from entropy, with and without a
+    # passphrase: the printed MASTER block (sentence + passphrase) must regenerate every key that is printed under it
+    k_ = 0
+    for via, sizes in (("new_wallet", (12, 15, 18, 21, 24)), ("entropy_bits", (128, 160, 192, 224, 256)), ("entropy_hex", (16, 20, 24, 28, 32))):
+        for n_ in (sizes if not q else (sizes[0], rng.choice(sizes[1:]))):
+            for pw in (("", "TREZOR", "pässwörd ①", " padded ") if not q else ("", rng.choice(["TREZOR", "pässwörd ①", " padded "]))):
+                nw = {"via": via, "n": n_}
+                if via == "entropy_hex":
+                    nw["hex"] = T(bytes(rng.randrange(256) for _ in range(n_)).hex())
+                k_ += 1
+                out.append(("Generate", {"new": nw, "mnemonic": T(""), "password": T(pw), "net": ("main", "test")[k_ % 2], "account": rng.choice([0, 1, 7]),
+                                         "start": B((k_ % 3).to_bytes(5, "big")), "end": B((k_ % 3 + 2).to_bytes(5, "big")), "json": [False, 2][k_ % 2]},
+                            ("generate-library-chosen-sentence", via, pw == "")))
     # passphrases taken from the library's OWN string literals (placeholders, markers, separators, key names,
     # templates filled with small numbers), rendered with an indent: what the code treats specially must still be
     # echoed and parse back unchanged
